@@ -83,7 +83,7 @@ def _lock(name):
     return fh
 
 
-def build_impl(variant='plain', keep=3):
+def build_impl(variant='plain', keep=2):
     """Build /repo's current working tree in a scratch directory; returns its path.
     Keyed by the content hash of the sources, so an edited tree is always rebuilt."""
     th = tree_hash()
@@ -96,7 +96,7 @@ def build_impl(variant='plain', keep=3):
             os.utime(dest, None)
             return dest
         # evict old builds (keep the most recent few; this one may flip between clean/mutated)
-        olds = sorted([d for d in glob.glob(os.path.join(root, '*-*')) if os.path.isdir(d)],
+        olds = sorted([d for d in glob.glob(os.path.join(root, '*-' + variant)) if os.path.isdir(d)],
                       key=lambda d: os.path.getmtime(d))
         for d in olds[:max(0, len(olds) - (keep - 1))]:
             shutil.rmtree(d, ignore_errors=True)
